@@ -87,6 +87,12 @@ func runWorkerWith(b *Build, race bool, args []string, raceLogPrefix string, tim
 	defer cancel()
 	cmd := exec.CommandContext(ctx, bin, b.withHot(args)...)
 	env := append(os.Environ(), "GOMAXPROCS="+procs)
+	for i := 0; i+1 < len(args); i++ {
+		if args[i] == "-clockoffset" {
+			// package initialisers of the tree read the clock before main parses flags
+			env = append(env, "SIM_CLOCK_OFFSET="+args[i+1])
+		}
+	}
 	if race {
 		env = append(env, "GORACE=log_path="+raceLogPrefix+" exitcode=66 history_size=3", "SIM_RACE_LOG="+raceLogPrefix)
 	}
@@ -222,12 +228,17 @@ func runBatches(b *Build, batches []Batch, workers int, perBatchTimeout time.Dur
 					if r.AloneHash != "" && r.AloneHash != r.Done[k].ResHash {
 						// a difference: is it history?  A second history-free process must agree with the first one;
 						// if it does not, results vary from process to process for another reason and O8 does not apply
-						a2 := runWorker(b, bt.Race, append(batchArgs(bt), "-only", fmt.Sprint(k), "-backwards"), prefix+"-alone2", perBatchTimeout)
-						if a2.ExitCode == 0 && len(a2.Done) == 1 && a2.Done[0].ResHash != r.AloneHash {
-							r.AloneNA = true
-							mu.Lock()
-							aloneNA = true
-							mu.Unlock()
+						// (three more of them, one of which starts its simulated clock on another day: process id, start
+						// time, per-process random seeds all get their chance to show)
+						for j, off := range []string{"93900", "0", "0"} {
+							a2 := runWorker(b, bt.Race, append(batchArgs(bt), "-only", fmt.Sprint(k), "-backwards", "-clockoffset", off), fmt.Sprintf("%s-alone%d", prefix, j+2), perBatchTimeout)
+							if a2.ExitCode == 0 && len(a2.Done) == 1 && a2.Done[0].ResHash != r.AloneHash {
+								r.AloneNA = true
+								mu.Lock()
+								aloneNA = true
+								mu.Unlock()
+								break
+							}
 						}
 					}
 				}
